@@ -4,6 +4,7 @@ CONSTANTS UIds = {1}
  LgMaxKs = {1, 2, 3}
  UCoupons <- MCItems
  Inputs <- Catalogue
+ UBigs = {FALSE, TRUE}
  TrackFed = TRUE
 INVARIANT UInv
 CHECK_DEADLOCK FALSE
